@@ -13,39 +13,131 @@ theorem mapOpt_map2 {α β γ : Type} (f : α → Option β) (p : γ → α) (q 
 
 /-! ### defaults -/
 
-theorem scalarEq_eq {d v : Val} (h : scalarEq d v = true) : d = v := by
-  cases d <;> cases v <;> simp_all [scalarEq]
+theorem fEq_exact {a b : Nat} (hx : a % 2 ^ 63 ≠ 0) (h : fEq a b = true) : a = b := by
+  simp only [fEq, Bool.or_eq_true, Bool.and_eq_true, beq_iff_eq] at h
+  rcases h with h | h
+  · exact h
+  · exact absurd h.1 hx
 
-/-- `attr.Default(v)` only holds for the attribute's own value -/
-theorem isDefault_eq {f : Field} {v : Val} (h : f.isDefault v = true) : f.default.getD .undef = v := by
+/-- an exact literal `Equals` only its own value -/
+theorem litEq_eq : ∀ (d : Lit) (v : Val), d.exact = true → litEq d v = true → d.toVal = v := by
+  intro d
+  induction d with
+  | int a => intro v _ h; cases v <;> simp_all [litEq, Lit.toVal]
+  | flt a =>
+      intro v hx h
+      cases v <;> simp [litEq] at h
+      simp only [Lit.exact, bne_iff_ne, ne_eq] at hx
+      simp [Lit.toVal, fEq_exact hx h]
+  | str a => intro v _ h; cases v <;> simp_all [litEq, Lit.toVal]
+  | bool a => intro v _ h; cases v <;> simp_all [litEq, Lit.toVal]
+  | undef => intro v _ h; cases v <;> simp_all [litEq, Lit.toVal]
+  | anil =>
+      intro v _ h
+      cases v with
+      | arr es => cases es <;> simp_all [litEq, Lit.toVal]
+      | _ => simp [litEq] at h
+  | acons hd tl ihh iht =>
+      intro v hx h
+      simp only [Lit.exact, Bool.and_eq_true] at hx
+      cases v with
+      | arr es =>
+        cases es with
+        | nil => simp [litEq] at h
+        | cons x xs =>
+          simp only [litEq, Bool.and_eq_true] at h
+          simp [Lit.toVal, ihh x hx.1 h.1, iht (.arr xs) hx.2 h.2]
+      | _ => simp [litEq] at h
+  | hnil =>
+      intro v _ h
+      cases v with
+      | hsh es => cases es <;> simp_all [litEq, Lit.toVal]
+      | _ => simp [litEq] at h
+  | hcons k w tl _ ihw _ =>
+      intro v hx h
+      cases tl <;> simp [Lit.exact] at hx
+      cases k with
+      | str s =>
+        simp at hx
+        cases v with
+        | hsh es =>
+          simp only [litEq, Lit.len, Nat.zero_add, Bool.and_eq_true, beq_iff_eq, hashIn, Bool.and_true] at h
+          obtain ⟨hlen, hl⟩ := h
+          match es, hlen with
+          | [(kk, ww)], _ =>
+            cases kk with
+            | str s' =>
+              simp only [lookupAttr] at hl
+              by_cases hs : s' = s
+              · subst hs
+                simp at hl
+                simp [Lit.toVal, ihw ww hx hl]
+              · simp [hs] at hl
+            | _ => simp [lookupAttr] at hl
+        | _ => simp [litEq] at h
+      | _ => simp at hx
+
+theorem dlit_exact {f : Field} {d : Lit} (hx : f.exactDflt = true) (hd : f.dlit = some d) : d.exact = true := by
+  unfold Field.dlit at hd
+  unfold Field.exactDflt at hx
+  cases hf : f.dflt with
+  | some d' => simp only [hf, Option.some.injEq] at hd hx; subst hd; exact hx
+  | none =>
+    simp only [hf] at hd
+    split at hd
+    · simp only [Option.some.injEq] at hd; subst hd; rfl
+    · cases hd
+
+/-- `attr.Default(v)` only holds for the attribute's own value — when the declared default is an exact literal -/
+theorem isDefault_eq {f : Field} {v : Val} (hx : f.exactDflt = true) (h : f.isDefault v = true) :
+    f.default.getD .undef = v := by
   unfold Field.isDefault at h
-  cases hd : f.default with
+  unfold Field.default
+  cases hd : f.dlit with
   | none => simp [hd] at h
-  | some d => simp [hd] at h; simpa using scalarEq_eq h
+  | some d =>
+    simp only [hd] at h
+    simpa using litEq_eq d v (dlit_exact hx hd) h
 
 theorem isDefault_of_req {f : Field} (h : f.isOpt = false) (v : Val) : f.isDefault v = false := by
-  unfold Field.isOpt at h
+  unfold Field.isOpt Field.default at h
   unfold Field.isDefault
-  cases hd : f.default with
+  cases hd : f.dlit with
   | none => rfl
   | some d => simp [hd] at h
 
+/-- what the struct theorems need of a (field, value) pair: when the value counts as the default it IS the default -/
+def DefaultExact (f : Field) (v : Val) : Prop := f.isDefault v = true → f.default.getD .undef = v
+
+theorem defaultExact_of_exact {f : Field} (hx : f.exactDflt = true) (v : Val) : DefaultExact f v :=
+  fun h => isDefault_eq hx h
+
 /-- cutting the trailing defaults and letting `setValues` put the declared defaults back is the identity -/
 theorem restore_trim : ∀ (attrs : List Field) (vals : List Val), vals.length = attrs.length →
+    (∀ av ∈ zipFV attrs vals, DefaultExact av.1 av.2) →
     restore attrs (trimDefaults attrs vals) = vals
-  | [], [], _ => rfl
-  | [], _ :: _, h => by simp at h
-  | _ :: _, [], h => by simp at h
-  | a :: as, v :: vs, h => by
-      have ih := restore_trim as vs (by simpa using h)
+  | [], [], _, _ => rfl
+  | [], _ :: _, h, _ => by simp at h
+  | _ :: _, [], h, _ => by simp at h
+  | a :: as, v :: vs, h, hx => by
+      have ih := restore_trim as vs (by simpa using h) (fun av hav => hx av (by simp [zipFV, hav]))
       simp only [trimDefaults]
       by_cases hc : ((trimDefaults as vs).isEmpty && a.isDefault v) = true
       · rw [if_pos hc]
         simp only [Bool.and_eq_true, List.isEmpty_iff] at hc
         rw [hc.1] at ih
-        simp [restore, ih, isDefault_eq hc.2]
+        simp [restore, ih, hx (a, v) (by simp [zipFV]) hc.2]
       · rw [if_neg hc]
         simp [restore, ih]
+
+theorem zipFV_mem_fst : ∀ (attrs : List Field) (vals : List Val), ∀ av ∈ zipFV attrs vals, av.1 ∈ attrs
+  | [], _, _, h => by simp [zipFV] at h
+  | _ :: _, [], _, h => by simp [zipFV] at h
+  | a :: as, v :: vs, av, h => by
+      simp only [zipFV, List.mem_cons] at h
+      rcases h with rfl | h
+      · simp
+      · exact List.mem_cons_of_mem _ (zipFV_mem_fst as vs av h)
 
 theorem restore_full : ∀ (attrs : List Field) (vals : List Val), vals.length = attrs.length → restore attrs vals = vals
   | [], [], _ => rfl
@@ -346,15 +438,17 @@ theorem rebuild_flat : ∀ (S : GoTy) (v : GoVal), isStruct S = true → hasType
 
 /-! ### the constructors -/
 
-/-- what a field must satisfy: flat, well typed, and inside both halves of the bridge property (as a field it goes
-    through `wrapReflected`: `via = false`) -/
+/-- what a field must satisfy: flat, well typed, inside both halves of the bridge property (as a field it goes
+    through `wrapReflected`: `via = false`), and — when its value counts as the declared default (`Equals`) — it IS the
+    default (`DefaultExact`; automatic unless the default contains a float zero or a hash of several entries) -/
 def FieldOK (fv : Field × GoVal) : Prop :=
-  flatField fv.1 = true ∧ hasType fv.1.ty fv.2 = true ∧ RtOK false fv.1.ty fv.2 = true ∧ TaOK false fv.1.ty fv.2 = true
+  flatField fv.1 = true ∧ hasType fv.1.ty fv.2 = true ∧ RtOK false fv.1.ty fv.2 = true ∧ TaOK false fv.1.ty fv.2 = true ∧
+  DefaultExact fv.1 (fieldVal fv)
 
 theorem field_ta {fv : Field × GoVal} (h : FieldOK fv) : inst (typeOf fv.1.ty) (fieldVal fv) = true := by
-  obtain ⟨h1, h2, _, h4⟩ := h
+  obtain ⟨h1, h2, _, h4, _⟩ := h
   simp only [flatField, Bool.and_eq_true] at h1
-  exact ta_main fv.1.ty false fv.2 h1.1.1.1 h2 h4
+  exact ta_main fv.1.ty false fv.2 h1.1.1 h2 h4
 
 section
 variable (r32 : Nat → Nat) (hr : ∀ b, f32exact b = true → r32 b = b)
@@ -363,7 +457,7 @@ include hr
 theorem field_rt {fv : Field × GoVal} (h : FieldOK fv) : reflectTo r32 fv.1.ty (fieldVal fv) = some fv.2 := by
   obtain ⟨h1, h2, h3, _⟩ := h
   simp only [flatField, Bool.and_eq_true] at h1
-  exact rt_main r32 hr fv.1.ty false fv.2 h1.1.1.1 h2 h3
+  exact rt_main r32 hr fv.1.ty false fv.2 h1.1.1 h2 h3
 
 /-- `setValues` + reading the struct back: whenever the value slice, once the defaults are put back, is the list of the
     wrapped fields in attribute order, the struct that comes back has the original fields -/
@@ -388,6 +482,14 @@ theorem vals_length (fvs : List (Field × GoVal)) :
     ((attrOrder (·.1) fvs).map fieldVal).length = (attrOrder id (fvs.map (·.1))).length := by
   rw [← attrOrder_map]; simp
 
+omit hr in
+theorem zip_exact (fvs : List (Field × GoVal)) (hf : ∀ fv ∈ fvs, FieldOK fv) :
+    ∀ av ∈ zipFV (attrOrder id (fvs.map (·.1))) ((attrOrder (·.1) fvs).map fieldVal), DefaultExact av.1 av.2 := by
+  intro av hav
+  rw [← attrOrder_map, zipFV_map] at hav
+  obtain ⟨fv, hfv, rfl⟩ := List.mem_map.mp hav
+  exact (hf fv ((attrOrder_perm (·.1) fvs).mem_iff.mp hfv)).2.2.2.2
+
 /-- named-argument construction from any hash of the struct's attributes (the init hash, the full hash) -/
 theorem newNamed_ok (fvs : List (Field × GoVal)) (hn : (fvs.map (·.1.name)).Nodup) (hf : ∀ fv ∈ fvs, FieldOK fv)
     (h : List (Val × Val)) (hh : HashOf fvs h) :
@@ -402,9 +504,9 @@ theorem newNamed_ok (fvs : List (Field × GoVal)) (hn : (fvs.map (·.1.name)).No
       rcases hh.lookup fv hfv with hl | ⟨hl, hd⟩
       · rw [hl]; exact field_ta (hf fv hfv)
       · rw [hl]
-        simp only [Field.isOpt]
+        simp only [Field.isOpt, Field.default]
         unfold Field.isDefault at hd
-        cases hdf : fv.1.default with
+        cases hdf : fv.1.dlit with
         | none => simp [hdf] at hd
         | some d => rfl
     · intro kv hkv
@@ -422,9 +524,9 @@ theorem newNamed_ok (fvs : List (Field × GoVal)) (hn : (fvs.map (·.1.name)).No
     simp only [Function.comp]
     rcases hh.lookup fv (hp.mem_iff.mp hfv) with hl | ⟨hl, hd⟩
     · simp [hl]
-    · simp [hl, isDefault_eq hd]
+    · simp [hl, (hf fv (hp.mem_iff.mp hfv)).2.2.2.2 hd]
   rw [hfill]
-  exact restore_trim _ _ (vals_length fvs)
+  exact restore_trim _ _ (vals_length fvs) (zip_exact fvs hf)
 
 /-- positional construction: all attribute values, or the values without the trailing defaults -/
 theorem newPos_ok (fvs : List (Field × GoVal)) (hn : (fvs.map (·.1.name)).Nodup) (hf : ∀ fv ∈ fvs, FieldOK fv) :
@@ -459,7 +561,7 @@ theorem newPos_ok (fvs : List (Field × GoVal)) (hn : (fvs.map (·.1.name)).Nodu
       · have := trim_length_le (attrOrder id (fvs.map (·.1))) ((attrOrder (·.1) fvs).map fieldVal)
         omega
     simp only [hchk, if_true]
-    exact build_ok r32 hr fvs hn hf _ (restore_trim _ _ hlen)
+    exact build_ok r32 hr fvs hn hf _ (restore_trim _ _ hlen (zip_exact fvs hf))
 
 end
 end Pcore.Reflect
